@@ -391,8 +391,8 @@ PROPS = {
     },
     "C11": {
         "engine": "fltsim",
-        "instrument": "",
-        "cfgs": [""],
+        "instrument": "internal/filter/hashprefix=calls:hashSuffixes\\.Load|loadHashSuffixes|hashSuffixes\\.Store",
+        "cfgs": ["", "conc"],
         "quick": {"seconds": 30, "chunk": 800, "runs": 30000},
         "thorough": {"seconds": 900, "chunk": 3000},
         "rule": ("one run = three real hash-prefix filters whose lists (names over a 24-name universe with parents, children, "
